@@ -1,6 +1,7 @@
 package rules
 
 import (
+	"os"
 	"fmt"
 	"go/token"
 	"strings"
@@ -86,18 +87,46 @@ func checkSupply(c *core.Ctx, models []*RunModel) {
 				coin := mu.Site.Arg(0)
 				key := fmt.Sprintf("%s.Run/AddVolume(%s)", m.H.TypeName, coinLabel(coin))
 				why := ""
-				ok, _, _ := pathwise(c, mu.Site.Instr, 4, func(facts []core.Fact) bool {
+				amountArg := mu.Site.Arg(1)
+				mismatch := ""
+				ok, nFeasible, _ := pathwiseP(c, mu.Site.Instr, 4, func(p core.CFGPath, facts []core.Fact) bool {
 					for _, f := range facts {
-						// CheckForCoinSupplyOverflow(coinModel, delta) == nil
-						if f.ReturnedOK(".CheckForCoinSupplyOverflow") {
-							return true
+						// CheckForCoinSupplyOverflow(coinModel, delta) == nil — and delta is the amount
+						// this path adds to the volume
+						if f.ReturnedOK(".CheckForCoinSupplyOverflow") && f.OutcomeOf != nil && len(f.OutcomeOf.Call.Args) == 2 {
+							delta := f.OutcomeOf.Call.Args[1]
+							amt := p.Resolve(amountArg)
+							delta, amt = stripCopy(delta), stripCopy(amt)
+							if core.Unwrap(delta) == core.Unwrap(amt) || core.SameValue(delta, amt) || core.SameValue(delta, stripCopy(amountArg)) {
+								if os.Getenv("VERIF_DEBUG") != "" {
+									fmt.Printf("DEBUG supply %s: delta=%s amt=%s arg=%s  %v %v %v\n", key, describe(delta), describe(amt), describe(amountArg), core.Unwrap(delta) == core.Unwrap(amt), core.SameValue(delta, amt), core.SameValue(delta, amountArg))
+								}
+								return true
+							}
+							mismatch = fmt.Sprintf("; a max-supply gate exists but checks %s while %s is added", describe(delta), describe(amt))
+							continue
 						}
 						if cf, isC := f.AsCall(); isC && cf.MethodName() == "Cmp" && cf.Op == token.EQL && cf.Const == 1 && !f.Truth && strings.HasSuffix(cf.ArgPath(0), ".MaxSupply()") {
-							return true // explicit Volume+Value > MaxSupply ⇒ reject
+							inHelper := false
+							for _, v := range f.Via {
+								if strings.HasSuffix(v, ".CheckForCoinSupplyOverflow") {
+									inHelper = true // that comparison is about the helper's own delta (handled above)
+								}
+							}
+							if !inHelper {
+								return true // explicit Volume+Value > MaxSupply ⇒ reject (MintToken)
+							}
 						}
 					}
 					return false
 				})
+				if os.Getenv("VERIF_DEBUG") != "" {
+					fmt.Printf("DEBUG supply %s: ok=%v feasible=%d\n", key, ok, nFeasible)
+				}
+				if ok && nFeasible == 0 {
+					ok = false
+					mismatch = "; no feasible path to the site was found (analysis could not decide)"
+				}
 				if !ok {
 					// LP tokens: PairMint/PairCreate liquidity is bounded by the pool module
 					if isLiquidityVolume(mu.Site) {
@@ -105,7 +134,7 @@ func checkSupply(c *core.Ctx, models []*RunModel) {
 						why = " (pool-token liquidity returned by PairMint/PairCreate; bounded inside the pool module)"
 					}
 				}
-				c.Check(ok, "C02.supply", key, mu.Site.Pos(), "dominated by a max-supply gate"+why, "coin volume is increased without a max-supply gate: volume could exceed max supply")
+				c.Check(ok, "C02.supply", key, mu.Site.Pos(), "dominated by a max-supply gate"+why, "coin volume is increased without a max-supply gate on the amount added: volume could exceed max supply"+mismatch)
 			case "SubReserve":
 				if strings.HasSuffix(core.Path(mu.Site.Arg(0)), ".CommissionCoin()") {
 					// fee burn: reserve side checked by CalculateCommission → commissionFromReserve
@@ -137,6 +166,27 @@ func checkSupply(c *core.Ctx, models []*RunModel) {
 		}
 	}
 	c.Floor("C02.supply", n, 40, "volume/reserve mutation sites")
+}
+
+// stripCopy: big.NewInt(0).Set(x) / new(big.Int).Set(x) is a copy of x.
+func stripCopy(v ssa.Value) ssa.Value {
+	for i := 0; i < 4; i++ {
+		call, ok := core.Unwrap(v).(*ssa.Call)
+		if !ok || core.CalleeName(&call.Call) != "(*math/big.Int).Set" || len(call.Call.Args) != 2 {
+			return v
+		}
+		switch r := core.Unwrap(call.Call.Args[0]).(type) {
+		case *ssa.Call:
+			if core.CalleeName(&r.Call) != "math/big.NewInt" {
+				return v
+			}
+		case *ssa.Alloc:
+		default:
+			return v
+		}
+		v = call.Call.Args[1]
+	}
+	return v
 }
 
 // isLiquidityVolume: AddVolume(lpCoin, liquidity) where liquidity is a result of PairMint/PairCreate.
